@@ -34,7 +34,7 @@ SA = {1: "Signal", 2: "bkg", 3: "ttbar", 9: "zfresh", 99: "zzmissing"}
 MO = {1: "mu", 2: "nu", 3: "sys", 9: "t_fresh", 11: "u_ns1", 12: "u_ns2", 13: "u_ns3",
       21: "v_stat1", 22: "v_stat2", 23: "v_stat3", 99: "zz_missing"}
 ME = {1: "Meas A", 2: "meas_b", 9: "x fresh", 99: "zz missing"}
-TY = {1: "histosys", 3: "normfactor", 4: "normsys", 7: "staterror"}
+TY = {1: "histosys", 2: "lumi", 3: "normfactor", 4: "normsys", 7: "staterror"}
 for _pool in (CH, SA, MO, ME, TY):     # numeric order of the specification == Python string order
     _ks = sorted(_pool)
     assert [_pool[k] for k in _ks] == sorted(_pool[k] for k in _ks), _pool
@@ -56,6 +56,8 @@ def mod_data(t, d):
         return {"hi": 1.02 + (d % 100) * 0.001 + (d // 100) * 0.03, "lo": 0.97 - (d % 100) * 0.001 - (d // 100) * 0.02}
     if t == "staterror":
         return [1.0 + d / 200.0, 2.0 + d / 300.0]
+    if t == "histosys":
+        return {"hi_data": [22.0 + d / 10.0, 52.0 - d / 20.0], "lo_data": [19.0 + d / 10.0, 49.5 - d / 20.0]}
     raise ValueError(t)
 
 
@@ -577,6 +579,11 @@ def replay(pyhf, backend, precision, chunk, seed=0, likelihood=True):
                         break
             if last and likelihood and not fails:
                 try:
+                    def _outside(spec):      # the likelihood helpers know normfactor/normsys/staterror with one type per parameter name
+                        return any(len(ts) > 1 or "histosys" in ts for ts in mod_types(spec).values())
+                    if _outside(pre) or (step["op"] == "combine" and _outside(R)):
+                        # workspaces built from the two-typed sample S4 (or what pruning leaves of it) get the structural clauses only
+                        raise Skip("a parameter name carries two modifier types: structural clauses only")
                     if step["op"] == "combine":
                         if not ({c["name"] for c in pre["channels"]} & {c["name"] for c in R["channels"]}):
                             like_combine(pyhf, pre, R, res, exp_spec, fails)
